@@ -117,3 +117,7 @@ Lemma lookupN_Some_fst : forall {A} (k : N) (l : list (N * A)) v, lookupN k l = 
 Proof.
   intros A k l v H. apply lookupN_In in H. change k with (fst (k, v)). apply in_map. exact H.
 Qed.
+
+Lemma forallb_In : forall {A} (f : A -> bool) l x, forallb f l = true -> In x l -> f x = true.
+Proof. intros A f l x H Hin. rewrite forallb_forall in H. apply H. exact Hin. Qed.
+
